@@ -29,6 +29,7 @@ CONTRACTS = {
         "loops": {0: {"inv": {
             "requests holds exactly the wanted names among the processed ones": "forall(k, Str, has(requests, k) == (wanted(type_hints, component, k) and exists(j, Int, 0 <= j and j < __i and keys(type_hints)[j] == k)))",
             "each with its annotation unwrapped to the generic origin, a real type": "forall(k, Str, implies(has(requests, k), requests[k] is unwrapped(type_hints[k]) and is_type(requests[k])))",
+            "requests is a proper dict": "wf_map(requests)",
             "no private name met so far when there is no instance": "implies(component is None, forall(j, Int, implies(0 <= j and j < __i, not startswith(keys(type_hints)[j], '_'))))",
         }}},
         "ensures": {
@@ -36,6 +37,7 @@ CONTRACTS = {
                 "forall(k, Str, has(result, k) == wanted(type_hints, component, k))",
             "C08.Q2 each request carries the annotated type (generic aliases unwrapped to their origin), which is a real type":
                 "forall(k, Str, implies(has(result, k), result[k] is unwrapped(type_hints[k]) and is_type(result[k])))",
+            "a proper dict again": "wf_map(result)",
             "C08.Q3 constructor injection (no instance yet) accepts no private parameter": "implies(component is None, forall(k, Str, implies(has(type_hints, k), not startswith(k, '_'))))",
         },
         "ensures_raise": {"C08.Q4 startup only fails for a private __init__ parameter or a non-type annotation":
